@@ -250,12 +250,23 @@ def run(ctx):
               path=describe_path(g, esc) if esc else None)
   g_tw, f_tw = std_facts(prog, tw)
   bare = [n for n in g_tw.live_nodes() if n.kind == 'raise_stmt' and n.ast.exc is None]
-  okb = all(any(fct[0] == 'c' and fct[2] is True and fct[1].replace(' ', '').startswith('isinstance(') and 'SyntaxError' in fct[1] for fct in f_tw[n.id]) for n in bare)
+  def only_syntax_error(n):
+    if any(fct[0] == 'c' and fct[2] is True and fct[1].replace(' ', '').startswith('isinstance(') and 'SyntaxError' in fct[1] for fct in f_tw[n.id]):
+      return True
+    for anc in ancestors(n.ast):
+      if isinstance(anc, ast.ExceptHandler):
+        return anc.type is not None and u(anc.type) == 'SyntaxError'
+    return False
+  okb = all(only_syntax_error(n) for n in bare)
   ctx.check(okb, 'C16.type', construct(tw), 'only a SyntaxError is re-raised without the location being added',
             'an exception other than SyntaxError can be re-raised without adding this level\'s location: an error inside an included file '
             'would no longer name each level of the include chain', tw.loc(bare[0].ast) if bare else tw.loc(), instance='every-level')
-  syn = [n for n in walk_local(tw.node) if isinstance(n, ast.If) and 'SyntaxError' in u(n.test)
-         and isinstance(n.body[-1], ast.Raise) and n.body[-1].exc is None]
+  syn = [n for n in bare if only_syntax_error(n)]
+  # a dedicated `except SyntaxError` clause must come before the broad one, or it never runs
+  for t_ in [x for x in walk_local(tw.node) if isinstance(x, ast.Try)]:
+    types = [u(h.type) if h.type is not None else 'BaseException' for h in t_.handlers]
+    if 'SyntaxError' in types and any(b_ in types[:types.index('SyntaxError')] for b_ in ('Exception', 'BaseException')):
+      syn = []
   ctx.check(bool(syn), 'C16.type', construct(tw), 'SyntaxError passes through un-wrapped', 'SyntaxError is no longer passed through unchanged',
             tw.loc(), instance='syntaxerror')
 
